@@ -174,3 +174,7 @@ package py
 //@   ensures idle: !old(it.Running) ==> !it.Running
 //@   ensures errdone: !old(it.Running) && err != nil && !(old(it.Frame.Lasti) == 0 && !isNone(arg)) ==> !it.Frame.Yielded
 //@   ensures value: err == nil ==> it.Frame.Yielded
+
+// ---- package-level state (C08): written outside init only by type registration, which runs during package
+// initialisation (TypeDelayReady is called from package-level variable initialisers, TypeMakeReady from init) ----
+//@ allow-global-write delayedReady
